@@ -947,3 +947,5 @@ def run(report, repo):
   # C02-R2 group sites are decided by the group table shared with C03
   from sa.rules import c03  # pylint: disable=g-import-not-at-top
   report.guard(c03.group_table, report, repo, 'C02-R2')
+  from sa.rules import extra5  # pylint: disable=g-import-not-at-top
+  report.guard(extra5.group_sequence_never_unwrapped, report, repo, 'C02-R9')
